@@ -10,7 +10,10 @@ from hypothesis import strategies as st
 
 ID = 'C01'
 LEVEL = 'exploration'
-RULE = ('A case is (data set, query): data = 0-4 A rows, 0-6 B rows, 0-3 C rows over small colliding domains with NULLs, empty '
+RULE = ('Grouped part (vlib/c01_group.py): aggregate projections (keys + count/sum/min/max/avg, distinct variants, navigation '
+        'through Optional/Required references incl. a composite-key target) over 0-7 rows judged by a Python group-by; rows '
+        'whose navigated Optional reference is None may be kept or dropped per reference. Main part: '
+        'A case is (data set, query): data = 0-4 A rows, 0-6 B rows, 0-3 C rows over small colliding domains with NULLs, empty '
         'strings, LIKE metacharacters and non-ASCII; query = generated tree (filters, projections, arithmetic, string functions, '
         'slices, comparison chains, in/not in, None tests, truth tests, and/or/not, navigation through references and '
         'collections, collection aggregates, exists/not exists, IN-subqueries, two-loop joins, grouped aggregates) rendered to '
@@ -212,6 +215,24 @@ def run(ctx):
     def t(data, q):
         check_case(ctx, data, q)
     ctx.run_test(t, dict(data=qgen.datasets(), q=qgen.queries()), max_examples=ctx.scale(1200, 6000), name="C01")
+    if ctx.violation is not None:
+        return
+
+    # grouped part: aggregate projections with implicit GROUP BY (vlib/c01_group.py)
+    from vlib import c01_group
+
+    def tg(case):
+        status, msg = c01_group.judge(case)
+        if status == 'rejected':
+            ctx.rejected += 1
+            ctx.count('rejected:group')
+            return
+        nt = len(case['es']) >= 2 and bool(case['keys'])
+        ctx.case(key=case, nontrivial=nt, classes=['accepted', 'group'] + (['group:optional_ref'] if c01_group.refs_navigated(case) else []),
+                 sample={'query': c01_group.source(case), 'rows_E': len(case['es'])} if nt else None)
+        if status == 'violation':
+            ctx.fail(case, msg)
+    ctx.run_test(tg, dict(case=c01_group.cases()), max_examples=ctx.scale(500, 4000), name="C01_group")
 
 
 def replay(case):
@@ -229,6 +250,10 @@ def replay(case):
             if self.msg is None:
                 self.msg = message
     c = Ctx()
+    if case.get('kind') == 'group':
+        from vlib import c01_group
+        status, msg = c01_group.judge(case)
+        return msg if status == 'violation' else None
     if 'form' in case:
         check_case(c, case['data'], case['query'])
     return c.msg
